@@ -123,6 +123,32 @@ func (q *c11Sys) checkIn(a uint32) error {
 	return nil
 }
 
+// check24: the bus's 24-bit read (three bytes, wrapping inside the bank) agrees with three single reads
+// whenever all three addresses belong to the console's layout.
+func (q *c11Sys) check24(bank uint32, off uint16) error {
+	var want uint32
+	for i := uint16(0); i < 3; i++ {
+		a := bank<<16 | uint32(off+i)
+		if !c11InT(a) {
+			return nil
+		}
+		class, _, gold, idx, err := q.cell(a)
+		if err != nil || int(idx) >= len(gold) {
+			return nil
+		}
+		_ = class
+		want |= uint32(gold[idx]) << (8 * i)
+	}
+	var got uint32
+	if pe := rig.Safe(func() error { got = q.s.Bus.EaRead24_wrap(byte(bank), off); return nil }); pe != nil {
+		return fmt.Errorf("EaRead24_wrap($%02X,$%04X) fails (%v) although its three bytes are ROM/SRAM/WRAM cells", bank, off, pe)
+	}
+	if got != want {
+		return fmt.Errorf("EaRead24_wrap($%02X,$%04X) = $%06X, the three cells the mapper designates hold $%06X", bank, off, got, want)
+	}
+	return nil
+}
+
 // checkOut performs a write at an address outside T; array changes are detected by the caller's scan.
 func (q *c11Sys) checkOut(a uint32) {
 	_ = rig.Safe(func() error { q.s.Bus.EaWrite(a, ^rig.Mix(q.seed, a)|1); return nil })
@@ -131,6 +157,13 @@ func (q *c11Sys) checkOut(a uint32) {
 // c11Check is the single-address form (replay): full array scan after the access.
 func c11Check(c c11Case) error {
 	q := c11Fill(c.Seed)
+	q2 := c11Fill(c.Seed ^ 0x5A5A5A5A)
+	_ = rig.Safe(func() error { q2.s.Bus.EaWrite(c.Addr, q2.s.Bus.EaRead(c.Addr)); return nil })
+	if c11InT(c.Addr) {
+		if err := q.check24(c.Addr>>16, uint16(c.Addr)); err != nil {
+			return err
+		}
+	}
 	return q.checkOne(c.Addr)
 }
 
@@ -183,13 +216,27 @@ func TestC11(t *testing.T) {
 			}
 			for _, seed := range seeds {
 				q := c11Fill(seed)
+				// a second, differently filled System is used between the accesses: each System answers from its own arrays
+				q2 := c11Fill(seed ^ 0x5A5A5A5A)
 				var inT, outAccepted int64
 				failed := false
 				for bank := uint32(0); bank < 256 && !failed; bank++ {
 					for off := uint32(0); off < 0x10000; off++ {
 						a := bank<<16 | off
+						if off&0x3 == 1 {
+							_ = rig.Safe(func() error { q2.s.Bus.EaRead(a); return nil })
+						} else if off&0x3 == 2 {
+							_ = rig.Safe(func() error { q2.s.Bus.EaWrite(a, q2.s.Bus.EaRead(a)); return nil })
+						}
 						if c11InT(a) {
 							inT++
+							if off&0xF >= 0xC || off&0xFF == 0x40 {
+								if err := q.check24(bank, uint16(off)); err != nil {
+									r.Violation("read24", c11Case{seed, a}, err)
+									failed = true
+									break
+								}
+							}
 							if err := q.checkIn(a); err != nil {
 								r.Violation("in", c11Case{seed, a}, err)
 								failed = true
